@@ -136,6 +136,9 @@ pub fn seeds() -> Vec<(String, Vec<u8>)> {
     // embedded bitmap tables (CBLC/CBDT, EBLC/EBDT: every index and image format), morx (every subtable type and AAT
     // lookup format), SVG, STAT, name format 1, post 2.0, kern format 0/2, vmtx from the spec-based otmodel::bitmapenc
     v.extend(extra_seeds());
+    // GSUB 1.1 FeatureVariations (condition sets, feature table substitution) behind a one-axis fvar: the battery shapes
+    // variable fonts with a tuple, which is the only way into the condition / substitution readers
+    v.push(("gsub-feature-variations+fvar".into(), crate::c03::synthetic_variable_gsub_font()));
     // variable fonts whose name table carries long / non-ASCII strings in the ids that instancing reads to build the
     // names of the instance (1, 2, 4, 6, 16, 17, 25 = Variations PostScript Name Prefix, and the fvar axis / instance ids)
     if let Ok(base) = std::fs::read("/repo/tests/fonts/variable/UnderlineTest-VF.ttf") {
